@@ -199,6 +199,26 @@ def run(chk, tier, want):
         for d, m in rs.items():
             if 1 in m and 2 in m and set(m[1]) & set(m[2]):
                 chk.violation(f"roots-collide|prog={pname}|dec={d}", "two different keys produced a common draw", {"prog": prog})
+    if want == "C07":
+        # the bounded model uses scans of length 2; the iteration index also has to stay injective for LONG scans (a site of every
+        # iteration gets its own stream): one seeded scan over 70 000 iterations, every site returns the bits it consumed
+        n_long = 70000
+        ck = f"long-scan|n={n_long}"
+        chk.case(ck)
+        chk.validated(1)
+        try:
+            def long_prog():
+                return jax.lax.scan(lambda c, _: (c, SB.bits_site()), 0, None, length=n_long)[1]
+            rows = np.asarray(jax.jit(seed(long_prog))(jax.random.key(chk.seed + 5)))
+            packed = rows[:, 0].astype(np.uint64) << np.uint64(32) | rows[:, 1].astype(np.uint64)
+            uniq, first, counts = np.unique(packed, return_index=True, return_counts=True)
+            if len(uniq) != n_long:
+                dup = uniq[counts > 1][0]
+                idx = np.nonzero(packed == dup)[0][:3].tolist()
+                chk.violation(ck, f"iterations {idx} of one seeded scan of length {n_long} returned the same 64 random bits "
+                              f"({n_long - len(uniq)} repeated draws)", {"iterations": idx})
+        except Exception as ex:
+            chk.violation(ck, f"raised {type(ex).__name__}: {str(ex).splitlines()[0][:140] if str(ex) else ''}", {})
     if chosen:
         st = chosen[len(chosen) // 2]
         chk.sample({"program": canon_prog(_prog_json(st["prog"])),
